@@ -946,7 +946,32 @@ func scnAttesters(g *Gen, budget int, arg string) {
 				from = g.anyAcct()
 			}
 			cnt := len(g.attesters())
-			switch g.pick(8) {
+			switch g.pick(9) {
+			case 8:
+				// an attestation that was verified once (on a discarded branch, or by a receive that failed later) must be
+				// verified AGAIN against the attester set of the moment: sign, simulate, rotate the signer out, deliver
+				en := g.enabledKeys()
+				t := int(g.threshold())
+				if len(en) >= 1 && t >= 1 && t <= len(en) {
+					msg := g.inboundBurn(0, g.freshNonce(0), big.NewInt(3), 0)
+					kv := g.opReceive(g.anyAcct(), msg, attOpts{})
+					g.emit(Op{Kind: "sim", Sub: "ReceiveMessage", KV: kv})
+					signer := en[0]
+					if len(en) == t { // keep the count above the threshold: enable somebody else first
+						for k := range g.keys {
+							isEn := false
+							for _, e := range en {
+								isEn = isEn || e == k
+							}
+							if !isEn {
+								g.tx("EnableAttester", newKV().set("from", hs(am)).set("attester", hs(g.pubHex[k])))
+								break
+							}
+						}
+					}
+					g.tx("DisableAttester", newKV().set("from", hs(am)).set("attester", hs(g.pubHex[signer])))
+					g.tx("ReceiveMessage", kv) // the very same message and attestation bytes
+				}
 			case 7:
 				g.validFlow(4 + g.pick(4))
 			case 0, 1:
@@ -1525,6 +1550,12 @@ func scnReplace(g *Gen, budget int, arg string) {
 				en := g.enabledKeys()
 				if len(en) > int(g.threshold()) && len(en) > 1 {
 					att := g.attest(orig, o)
+					if g.chance(0.6) {
+						// the attestation is verified once while its signers are still enabled (on a branch that is thrown away) ...
+						g.emit(Op{Kind: "sim", Sub: "ReplaceMessage", KV: newKV().set("from", hs(from)).set("message", hx(orig)).set("attestation", hx(att)).
+							set("newBody", hx(g.randBytes(3))).set("newCaller", hx(make([]byte, 32))).set("ecr", ecrEntries(orig, att)).set("faults", "-")})
+					}
+					// ... and must be verified again, against the set of the moment, after one of them was rotated out
 					g.tx("DisableAttester", newKV().set("from", hs(g.role("am"))).set("attester", hs(g.pubHex[en[0]])))
 					g.emitReplace(from, orig, att, burnShaped)
 					g.tx("EnableAttester", newKV().set("from", hs(g.role("am"))).set("attester", hs(g.pubHex[en[0]])))
@@ -1615,9 +1646,11 @@ func scnWitness(g *Gen, budget int, arg string) {
 func init() { scenarios["bulk"] = scnBulk }
 
 func scnBulk(g *Gen, budget int, arg string) {
+	round := 3 // the used nonces first, then the other registries in turn: every run sees each of them big
 	for g.nOps < budget {
 		n := []int{101, 150, 257}[g.pick(3)]
-		which := g.pick(5) // the registry that is made big (the others get a few entries)
+		which := round % 5 // the registry that is made big (the others get a few entries)
+		round++
 		size := func(i int) int {
 			if i == which {
 				return n
